@@ -1,4 +1,4 @@
-From Gots Require Import Base.Prelude Exec.ExecBase Model.PcrCodec.
+From Gots Require Import Base.Prelude Exec.ExecBase Model.PcrCodec Spec.TimestampSpec.
 Open Scope string_scope.
 Definition ops : list op := [
   (* pcr.get b -> ExtractPCR(b) *)
@@ -8,5 +8,13 @@ Definition ops : list op := [
   (* pcr.rt old v -> (old after InsertPCR, ExtractPCR of it) *)
   ("pcr.rt", fun a => match a with
      | [VB b; VI v] => vres (fun b' => VL [VB b'; vres vn (PcrCodec.extract_pcr b')]) (PcrCodec.insert_pcr b (zN v))
-     | _ => vbad end)
+     | _ => vbad end);
+  (* ser.pcr v / ser.ts prefix v -> the ISO fields of Spec/TimestampSpec.v (modelexec only; oracle side of the generator) *)
+  ("ser.pcr", fun a => match a with [VI v] => VB (TsSpec.ser_pcr (zN v)) | _ => vbad end);
+  ("ser.ts", fun a => match a with [VI p; VI v] => VB (TsSpec.ser_ts (zN p) (zN v)) | _ => vbad end);
+  (* spec.pcrval b / spec.tsval b -> the value carried by the value bits of six resp. five bytes (TsSpec.pcr_value / ts_value) *)
+  ("spec.pcrval", fun a => match a with
+     | [VB (a0 :: a1 :: a2 :: a3 :: a4 :: a5 :: _)] => vn (TsSpec.pcr_value a0 a1 a2 a3 a4 a5) | _ => vbad end);
+  ("spec.tsval", fun a => match a with
+     | [VB (a0 :: a1 :: a2 :: a3 :: a4 :: _)] => vn (TsSpec.ts_value a0 a1 a2 a3 a4) | _ => vbad end)
 ].
